@@ -146,8 +146,11 @@ func (fr *Frame) addEdge(in map[*ssa.BasicBlock][]edge, from, to *ssa.BasicBlock
 		if fr.contract != nil {
 			for _, cl := range fr.contract.LoopAsserts[li.ord] {
 				fr.evalBlock = from
-				t := fr.evalClause(cl, li.header, fr.entry, st)
+				t, ok := fr.evalLoopClause(cl, li, st)
 				fr.evalBlock = nil
+				if !ok {
+					continue
+				}
 				base := fmt.Sprintf("%s#loop-assert@loop%d", fr.key, li.ord)
 				fr.fx.obligeNamed(base, "inv-step", cl.Tags, c, t, cl.Src, cl.Text)
 				fr.fx.assert(implies(c, t))
